@@ -100,6 +100,22 @@ func DecodePureDKG(data []byte) (*puredkg.PureDKG, error) {
 	if err != nil {
 		return nil, err
 	}
+	// PureDKG marks "nothing received from this keyper yet" with nil entries in Commitments and
+	// Evals. gob calls GobEncode on these nil pointers, gets an empty encoding and decodes it into
+	// a non-nil empty Gammas and a non-nil zero big.Int, which PureDKG takes for values already
+	// received: every later commitment and evaluation would be refused as a duplicate. Restore the
+	// nil entries. (A valid commitment is never empty. An evaluation of exactly zero is treated as
+	// not received; it is recovered through the accusation/apology path.)
+	for i, c := range p.Commitments {
+		if c != nil && len(*c) == 0 {
+			p.Commitments[i] = nil
+		}
+	}
+	for i, e := range p.Evals {
+		if e != nil && e.Sign() == 0 {
+			p.Evals[i] = nil
+		}
+	}
 	return p, nil
 }
 
